@@ -24,7 +24,7 @@ RULE = ('random programs: a hierarchy of float/int/str/bool scalars and arrays (
 SHARDS = {'quick': 16, 'thorough': 16}
 MIN_NONTRIVIAL = {'quick': 700, 'thorough': 25000}
 NCASES = {'quick': 1400, 'thorough': 44000}
-TIME_CAP = {'quick': 50, 'thorough': 780}
+TIME_CAP = {'quick': 300, 'thorough': 3600}
 
 REQUIRED_CLASSES = ['alias:compare-then-reference', 'alias:import-then-option', 'alias:form-case', 'alias:form-bool-node', 'alias:form-condition', 'alias:ref-inject', 'alias:ref-import', 'alias:modify-source', 'source-local', 'source-remote', 'source-base',
                     'slice-index', 'slice-range', 'slice-string', 'slice-1d', 'slice-2d', 'slice-in-modification',
